@@ -36,7 +36,11 @@ claim('C20', 'lock-region ordering by dominance + loop SCC analysis on the stop/
       'Partial: copy-in -> cycle -> copy-back inside one SharedGlobals::with_lock closure (order and exactly-once by dominance/must-pass), shared map reachable only through the lock; cycle site behind paused == false; every repeating path re-tests the stop flag; stop branch saves once, marks Stopped, leaves; every thread exit marks Stopped/Faulted; wait-in-loop, (lock, write, notify_all) wakers and no waiter consuming the broadcast flag; the two sibling loops make the same calls. Fairness and lost wake-ups under arbitrary OS schedules are not decided.',
       _TB, 'DESIGN.md section 4 / C20')
 
+claim('C17', 'condvar typestate exploration with boolean-flag refinement + who-may-call + hook dominance/argument provenance + step-table comparison direction + loop analysis of the adapter stop loop',
+      'Partial: waits sit in a loop that re-reads DebugState and branches only on state read after waking; every resume path reaches notify_all (path-sensitive on the notify flag); deferred writes are drained only at cycle boundaries and never from statement execution; the hook precedes dispatch with stmt.location() and ctx.call_depth; hook object, Runtime.debug and call_depth are restored on every path; into/over/out comparison direction and out = depth-1; one emit_stop per pause; adapter stop loop must emit/resume (known finding F23). Interleavings and watch-expression side effects are not decided.',
+      _TB, 'DESIGN.md section 4 / C17')
+
 _PENDING = 'check not built yet in this commit (work in progress; see DESIGN.md section 10 for the build order)'
-for _p in ['C02','C03','C04','C05','C06','C09','C12','C13','C14','C16','C17']:
+for _p in ['C02','C03','C04','C05','C06','C09','C12','C13','C14','C16']:
     na(_p, _PENDING)
 na('C15', 'formatting token-sequence preservation and idempotence are equalities between values computed by string manipulation; no shape-of-code fact is a necessary condition that a realistic breaking edit would violate (DESIGN.md section 5)')
